@@ -25,7 +25,7 @@ rejections write no byte, a call object sends once, after the final reply the co
 the reply queued for that call. (c) 2..8 threads share one connection against a live scripted server with \
 generated op lists and yields; every call returns its own token or a busy error, the server log is a sequence of \
 intact requests, afterwards the connection is idle and usable. Non-trivial: (a) error reply; (b) a send attempted \
-while streaming; (c) at least one busy rejection observed in the round; distinct by reply / history / round.";
+while streaming; (c) at least one busy rejection observed in the round; distinct by reply / history / round. (d) read faults (four I/O error kinds) injected between a request and its reply, for plain calls and `more` streams, exhaustively over small dimensions: no invented success, and a late reply reaches no other call. (e) write / flush faults reported after the request bytes reached the peer (two sites x four error kinds x {call, more, oneway} x later operations, exhaustive): the peer's reply to the failed send reaches no other call.";
 
 // ------------------------------------------------------------------------------------------------
 // (a) reply -> outcome
@@ -940,6 +940,142 @@ pub fn run_read_fault(c: &FaultCase) -> Result<(), Fail> {
     Ok(())
 }
 
+// ------------------------------------------------------------------------------------------------
+// (e) a write fault reported after the request has reached the peer: the peer answers, and that reply
+// must go to nobody else
+
+#[derive(Clone, Debug)]
+pub struct WriteFaultCase {
+    pub prior: u8,
+    /// 0 call, 1 more, 2 oneway
+    pub victim_mode: u8,
+    /// 1: flush reports the fault, 2: the write does
+    pub site: u8,
+    pub kind: u8,
+    pub later: Vec<u8>,
+}
+
+fn wfault_json(c: &WriteFaultCase) -> Value {
+    json!({"write_fault": {"prior": c.prior, "victim_mode": c.victim_mode, "site": c.site, "kind": c.kind, "later": c.later}})
+}
+
+fn wfault_from(v: &Value) -> WriteFaultCase {
+    let f = &v["write_fault"];
+    WriteFaultCase {
+        prior: f["prior"].as_u64().unwrap_or(0) as u8,
+        victim_mode: f["victim_mode"].as_u64().unwrap_or(0) as u8,
+        site: f["site"].as_u64().unwrap_or(1) as u8,
+        kind: f["kind"].as_u64().unwrap_or(0) as u8,
+        later: f["later"].as_array().map(|a| a.iter().map(|x| x.as_u64().unwrap_or(0) as u8).collect()).unwrap_or_default(),
+    }
+}
+
+pub fn run_write_fault(c: &WriteFaultCase) -> Result<(), Fail> {
+    use std::sync::atomic::Ordering::SeqCst;
+    let (mut fake, armed, kind) = Fake::with_faulty_writer();
+    kind.store(c.kind as u32, SeqCst);
+    for i in 0..c.prior {
+        let tok = 100 + i as u64;
+        fake.push_replies(&[json!({"parameters": {"tok": tok}})]);
+        match vcall(&fake.conn, "org.x.Op", json!({"tok": tok})).call() {
+            Ok(v) if v["tok"] == tok => {}
+            other => return Err(Fail::new("fault/prior-call", format!("call before any fault: {:?}", other.map_err(|e| kind_name(&e))))),
+        }
+    }
+    let victim = 500u64;
+    let mut a = vcall(&fake.conn, "org.x.Op", json!({"tok": victim}));
+    armed.store(c.site as u32, SeqCst);
+    // the peer has the request and answers it; if the client reports the send as failed, these replies
+    // belong to a call that is over
+    let failed = match c.victim_mode {
+        0 => {
+            let _ = fake.try_push_replies(&[json!({"parameters": {"tok": victim}})]);
+            a.call().is_err()
+        }
+        1 => {
+            let _ = fake.try_push_replies(&[json!({"continues": true, "parameters": {"tok": victim, "j": 0}}), json!({"parameters": {"tok": victim, "j": 1}})]);
+            match a.more() {
+                Err(_) => true,
+                Ok(it) => {
+                    // the send was not reported as failed: the stream is the victim's own
+                    for _ in it {}
+                    false
+                }
+            }
+        }
+        _ => a.oneway().is_err(),
+    };
+    armed.store(0, SeqCst);
+    if !failed {
+        // the fault was absorbed (the call went through): nothing is left over, the ordinary rules apply
+        return Ok(());
+    }
+    for (i, op) in c.later.iter().enumerate() {
+        let tok = 900 + i as u64;
+        let mut b = vcall(&fake.conn, "org.x.Op", json!({"tok": tok}));
+        let foreign = |v: &Value| v["tok"] == victim;
+        match op {
+            0 => {
+                let _ = fake.try_push_replies(&[json!({"parameters": {"tok": tok}})]);
+                if let Ok(v) = b.call() {
+                    if foreign(&v) {
+                        return Err(Fail::new(
+                            "fault/reply-to-failed-send-delivered-to-another-call",
+                            format!("call #{} (tok {}) after a send that was reported as failed was handed {} - the reply to the earlier call (case {:?})", i, tok, v, c),
+                        ));
+                    }
+                }
+            }
+            1 => {
+                let _ = fake.try_push_replies(&[json!({"continues": true, "parameters": {"tok": tok, "j": 0}}), json!({"parameters": {"tok": tok, "j": 1}})]);
+                if b.more().is_ok() {
+                    for _ in 0..4 {
+                        match b.next() {
+                            Some(Ok(v)) if foreign(&v) => {
+                                return Err(Fail::new(
+                                    "fault/reply-to-failed-send-delivered-to-another-call",
+                                    format!("`more` call #{} (tok {}) after a send that was reported as failed was handed {} - a reply to the earlier call (case {:?})", i, tok, v, c),
+                                ))
+                            }
+                            Some(Ok(_)) => {}
+                            _ => break,
+                        }
+                    }
+                }
+            }
+            _ => {
+                let _ = b.oneway();
+            }
+        }
+    }
+    Ok(())
+}
+
+fn part_e(ctx: &mut Ctx) {
+    let mut total = 0u64;
+    for prior in 0..=2u8 {
+        for victim_mode in 0..3u8 {
+            for site in 1..=2u8 {
+                for kind in 0..4u8 {
+                    for later in [vec![0u8], vec![1], vec![2, 0], vec![0, 0], vec![1, 0], vec![0, 1, 0]] {
+                        let c = WriteFaultCase { prior, victim_mode, site, kind, later };
+                        total += 1;
+                        ctx.case(if c.victim_mode != 2 { Some(hash64(&wfault_json(&c).to_string())) } else { None });
+                        ctx.class("e:write-fault-after-the-request-went-out");
+                        if total % 97 == 0 {
+                            ctx.sample(|| wfault_json(&c));
+                        }
+                        if let Err(f) = pt::guard(|| run_write_fault(&c)) {
+                            ctx.violation(&f.key, &f.what, "c07e", wfault_json(&c));
+                        }
+                    }
+                }
+            }
+        }
+    }
+    ctx.section("e_write_faults", json!({"cases": total, "exhaustive": true, "sites": ["flush", "write"], "fault_kinds": ["TimedOut", "WouldBlock", "ConnectionReset", "Other"]}));
+}
+
 fn part_d(ctx: &mut Ctx) {
     // every combination of the small dimensions
     let mut total = 0u64;
@@ -981,6 +1117,8 @@ fn replay(ctx: &mut Ctx, v: &Value) {
     ctx.force_sample(cj.clone());
     let res = if cj.get("read_fault").is_some() {
         run_read_fault(&fault_from(cj))
+    } else if cj.get("write_fault").is_some() {
+        run_write_fault(&wfault_from(cj))
     } else if let Some(r) = cj.get("reply") {
         let mut fake = Fake::new();
         fake.push_replies(std::slice::from_ref(r));
@@ -1017,6 +1155,7 @@ pub fn run(args: &Args) -> ! {
         "after an iterator is dropped mid-stream nothing further is asserted".into(),
         "(c) samples OS schedules; its oracle is schedule-independent".into(),
         "(d) after a failed read of a reply only two things are asserted: the call does not report success, and the late reply is handed to no other call".into(),
+        "(e) after a send that reported a fault although the request bytes went out only one thing is asserted: the peer's reply to that request is handed to no other call (a client that absorbs the fault and completes the call is fine)".into(),
     ];
     if let Some(p) = &args.replay {
         let v = load_replay(p);
@@ -1029,6 +1168,7 @@ pub fn run(args: &Args) -> ! {
     ctx.bump_sample_cap(5);
     part_c(&mut ctx);
     part_d(&mut ctx);
+    part_e(&mut ctx);
     ctx.exhaustive = Some(false);
     ctx.finish()
 }
